@@ -226,7 +226,7 @@ def ramfile_guard(ctx: Ctx, rule: str) -> None:
 
 # ---------------------------------------------------------------------- regexes
 MODEL_SIZE0 = r"0 B"
-MODEL_SIZEP = r"(?:[1-9]\d{0,2}(?:\.\d{1,2})?|0\.\d{1,2}|\de\+\d\d) (?:B|KiB|MiB|GiB|TiB|PiB|EiB)"
+MODEL_SIZEP = r"(?:[1-9]\d{0,2}(?:\.\d{1,2})?|0\.\d{1,3}|\de\+\d\d) (?:B|KiB|MiB|GiB|TiB|PiB|EiB)"
 
 
 def _model(size: str):
